@@ -456,7 +456,20 @@ enum Flow {
 	LateLockShrunk,
 	Invoice,
 	Estimate,
+	/// a send is initiated (inputs chosen, nothing reserved yet); before its outputs are locked every chosen
+	/// input gets the given status in the store (spent by a confirmed transaction of the same seed, reserved by
+	/// another transaction, reorganised away) or is removed (scan with delete); then tx_lock_outputs runs
+	LockAfter(Gone),
 }
+
+#[derive(Clone, Copy, Debug, PartialEq)]
+enum Gone {
+	Spent,
+	Locked,
+	Reverted,
+	Removed,
+}
+const GONE: [Gone; 4] = [Gone::Spent, Gone::Locked, Gone::Reverted, Gone::Removed];
 
 fn store_view(w: &WalletH, slots: &[uuid::Uuid]) -> Value {
 	let mut v = project_wallet(
@@ -515,10 +528,54 @@ fn check_api(world: &World, flow: Flow, p: &Params) -> Result<&'static str, (Str
 			}
 		}
 	}
-	let before = store_view(a, &[]);
+	let mut initiated: Option<Slate> = None;
+	if let Flow::LockAfter(g) = flow {
+		let pre = catch(|| -> Result<Slate, crate::libwallet::Error> {
+			let s1 = a.init_send(args.clone())?;
+			let ctx = a.get_context(&s1.id)?;
+			a.with(|b| -> Result<(), crate::libwallet::Error> {
+				let mut recs = vec![];
+				for (id, mmr, _) in ctx.input_ids.iter() {
+					recs.push(b.get(id, mmr)?);
+				}
+				let mut batch = b.batch(None)?;
+				for mut o in recs {
+					match g {
+						Gone::Spent => o.status = OutputStatus::Spent,
+						Gone::Locked => o.status = OutputStatus::Locked,
+						Gone::Reverted => o.status = OutputStatus::Reverted,
+						Gone::Removed => {
+							batch.delete(&o.key_id, &o.mmr_index)?;
+							continue;
+						}
+					}
+					batch.save(o)?;
+				}
+				batch.commit()
+			})?;
+			Ok(s1)
+		});
+		match pre {
+			Ok(Ok(s1)) => {
+				slate_ids.push(s1.id);
+				initiated = Some(s1);
+			}
+			_ => {
+				let _ = take_last_panic();
+				a.inj.lock().unwrap().budget = None;
+				return Ok("pre-err");
+			}
+		}
+	}
+	let before = store_view(a, &slate_ids);
 	let before_outs = a.outputs();
 	let r = catch(|| -> Result<Option<(uuid::Uuid, u64)>, crate::libwallet::Error> {
 		match flow {
+			Flow::LockAfter(_) => {
+				let s1 = initiated.clone().unwrap();
+				a.lock(&s1)?;
+				Ok(Some((s1.id, s1.amount)))
+			}
 			Flow::Estimate => {
 				a.init_send(args.clone())?;
 				Ok(None)
@@ -573,6 +630,25 @@ fn check_api(world: &World, flow: Flow, p: &Params) -> Result<&'static str, (Str
 				));
 			}
 			Ok(if flow == Flow::Estimate { "estimate" } else { "err" })
+		}
+		Ok(Some((id, _))) if matches!(flow, Flow::LockAfter(_)) => {
+			// the reservation was made: every output it reserved must have been spendable when it was made
+			let t = a.txs().into_iter().find(|t| t.tx_slate_id == Some(id));
+			let reserved: Vec<OutputData> = a.outputs().into_iter().filter(|o| o.status == OutputStatus::Locked && t.as_ref().map(|t| o.tx_log_entry == Some(t.id)).unwrap_or(false)).collect();
+			for o in reserved.iter() {
+				match before_outs.iter().find(|x| x.key_id == o.key_id) {
+					None => return Err((format!("C01/input-not-in-wallet/{}", fname), "tx_lock_outputs reserved an output that was not a wallet record".to_owned())),
+					Some(x) => {
+						if let Some(why) = must_not_select(x, p.min_conf) {
+							return Err((
+								format!("C01/ineligible-input-at-lock/{}", why),
+								format!("tx_lock_outputs reserved an output that was not spendable when the reservation was made ({}): the payment is built from funds the account does not have", why),
+							));
+						}
+					}
+				}
+			}
+			Ok("ok")
 		}
 		Ok(Some((id, slate_amount))) => {
 			slate_ids.push(id);
@@ -752,6 +828,10 @@ pub fn replay(payload: &Value) -> i32 {
 			"LateLock" => Flow::LateLock,
 			"LateLockShrunk" => Flow::LateLockShrunk,
 			"Invoice" => Flow::Invoice,
+			"LockAfter(Spent)" => Flow::LockAfter(Gone::Spent),
+			"LockAfter(Locked)" => Flow::LockAfter(Gone::Locked),
+			"LockAfter(Reverted)" => Flow::LockAfter(Gone::Reverted),
+			"LockAfter(Removed)" => Flow::LockAfter(Gone::Removed),
 			_ => Flow::Estimate,
 		};
 		check_api(&w, flow, &p)
@@ -866,11 +946,14 @@ pub fn run(_args: &[String]) -> i32 {
 			amounts.insert(vals[0].saturating_sub(tx_fee(1, 2, 1) + 5));
 		}
 		let mut cases = vec![];
-		let flows = [Flow::Send, Flow::LateLock, Flow::LateLockShrunk, Flow::Invoice, Flow::Estimate];
+		let mut flows = vec![Flow::Send, Flow::LateLock, Flow::LateLockShrunk, Flow::Invoice, Flow::Estimate];
+		for g in GONE.iter() {
+			flows.push(Flow::LockAfter(*g));
+		}
 		for flow in flows.iter() {
 			for amount in amounts.iter() {
 				for includes_fee in [false, true].iter() {
-					if *includes_fee && *flow == Flow::Invoice {
+					if *includes_fee && (*flow == Flow::Invoice || matches!(flow, Flow::LockAfter(_))) {
 						continue;
 					}
 					for cn in (if thorough { vec![0usize, 1, 2, 3] } else { vec![0usize, 1, 3] }).iter() {
@@ -931,7 +1014,7 @@ pub fn run(_args: &[String]) -> i32 {
 		"arithmetic": {"wallet_multisets": msets.len(), "max_outputs_per_wallet": if thorough {4} else {3}, "value_alphabet": VALUES, "critical_amounts_total": n_amounts,
 			"change_counts": change_ns, "max_outputs": max_outs, "strategies": 2, "includes_fee": 2, "calls": calls[0], "ok": oks[0], "err": errs[0]},
 		"eligibility": {"class_assignments": el_jobs.len(), "classes": CLASSES.iter().map(|c| format!("{:?}", c)).collect::<Vec<_>>(), "min_conf": [0,1,10], "calls": calls[1], "ok": oks[1], "err": errs[1]},
-		"api": {"wallets": api_wallets.len(), "flows": ["Send","LateLock","LateLockShrunk","Invoice","Estimate"], "calls": calls[2], "ok": oks[2], "err_or_estimate": errs[2]},
+		"api": {"wallets": api_wallets.len(), "flows": ["Send","LateLock","LateLockShrunk","Invoice","Estimate","LockAfter(Spent)","LockAfter(Locked)","LockAfter(Reverted)","LockAfter(Removed)"], "calls": calls[2], "ok": oks[2], "err_or_estimate": errs[2]},
 	}));
 	rep.cov("samples", json!([
 		{"wallet": [47,48,250], "amount": 250+48-67-2, "num_change_outputs": 2, "note": "critical amount S - fee - d"},
